@@ -98,7 +98,7 @@ fixed(['C03'], 'a76c764', '_untransformUnbounded resized _basisStatusCols twice 
 fixed(['C13'], '521ec1f', 'ratFromString accepted zero denominators ("1/0"): invalid Rational stored by the rational LP/MPS readers, boost::domain_error out of readFile() or a stack overflow inside GMP later')
 
 # ------------------------------------------------------------------ open findings
-UND = r'(ABORT_CYCLING|RUNNING|UNKNOWN|ERROR|SINGULAR|NO_PROBLEM|NOT_INIT)'
+UND = r'(ABORT_CYCLING|RUNNING|UNKNOWN|ERROR|SINGULAR|NO_PROBLEM|NOT_INIT|OPTIMAL_UNSCALED_VIOLATIONS)'
 # --- simplex core
 open_(SOLVE, r'(netlib\.)?(cert\.|reuse\.|resolve\.|.*\.resume\.|.*wrong-verdict|complete\.|.*harmless|basis\.|resolve-after|copy-|twins|dependent).*:\{.*solution_polishing=[12].*\}.*',
       'solution polishing (solution_polishing=1|2) returns OPTIMAL with slack != Ax, bound violations or a wrong status after its extra pivots', regex=True,
